@@ -71,12 +71,22 @@ func genSchedOps(r *rng, prio bool) string {
 }
 
 // genPrioOps: at most 11 stream ids, so that no node ever has more than 12 kids (sort.Sort is insertion sort there)
-func genPrioOps(r *rng) string {
+func genPrioOps(r *rng, maxIdle int) string {
 	var ops []string
 	open := []int{}
 	closed := []int{}
 	ids := []int{1, 3, 5, 7, 9, 11, 13, 15, 17, 19, 21}
 	used := map[int]bool{}
+	if maxIdle > 0 && maxIdle < len(ids) && r.chance(1, 4) {
+		// fill the idle list, then let a NEW stream depend on the oldest idle stream — the one that is evicted to make room
+		for j := 0; j < maxIdle; j++ {
+			ops = append(ops, fmt.Sprintf("a%d.0.%d.0", ids[j], []int{15, 200}[r.intn(2)]))
+		}
+		nw := ids[maxIdle]
+		ops = append(ops, fmt.Sprintf("a%d.%d.15.%d", nw, ids[r.intn(2)%maxIdle], r.intn(2)), fmt.Sprintf("o%d", nw), fmt.Sprintf("w%d.16384", nw), fmt.Sprintf("ph%d", nw), "x", "x")
+		open = append(open, nw)
+		used[nw] = true
+	}
 	n := []int{5, 15, 40, 120}[r.intn(4)]
 	adjust := func() {
 		sid := ids[r.intn(len(ids))]
@@ -147,9 +157,10 @@ func init() {
 		c.deferred = true
 		for i := 0; i < c.count; i++ {
 			r := c.rng.fork()
-			kind := fmt.Sprintf("prio:%d:%d:%d", []int{0, 1, 2, 4, 10}[r.intn(5)], []int{0, 1, 2, 4, 10}[r.intn(5)], r.intn(2))
+			maxIdle := []int{0, 1, 2, 4, 10}[r.intn(5)]
+			kind := fmt.Sprintf("prio:%d:%d:%d", []int{0, 1, 2, 4, 10}[r.intn(5)], maxIdle, r.intn(2))
 			c.tag("kind:" + kind[:4])
-			ops := genPrioOps(r)
+			ops := genPrioOps(r, maxIdle)
 			c.tag("ops:" + bucket(strings.Count(ops, ";")+1))
 			c.op(fmt.Sprintf("sched kind=%s ops=%s", kind, ops))
 			c.op(fmt.Sprintf("schedtrace kind=%s ops=%s", kind, ops)) // oracle: the trace specification judges the answers
